@@ -40,6 +40,12 @@ fn rrl_zone() -> (RefCatalog, QCatalog) {
         RRec { owner: RName::simple("*.other.rrl.test."), rtype: T_A, class: C_IN, ttl: 300, rdata: vec![192, 0, 2, 5] },
     ];
     recs.push(RRec { owner: RName::simple("txt.rrl.test."), rtype: T_TXT, class: C_IN, ttl: 300, rdata: vec![1, b'x'] });
+    // a wildcard whose TXT RRset does not fit in 512 octets (answers are truncated over plain UDP)
+    for i in 0..3u8 {
+        let mut rd = vec![250u8];
+        rd.extend(std::iter::repeat(b'a' + i).take(250));
+        recs.push(RRec { owner: RName::simple("*.big.rrl.test."), rtype: T_TXT, class: C_IN, ttl: 300, rdata: rd });
+    }
     let (rz, qz, d) = build_zone(&apex, C_IN, &recs);
     assert!(d.is_empty());
     let mut cat = QCatalog::new();
@@ -308,7 +314,7 @@ fn gen_source(rng: &mut Rng, base: Option<&IpAddr>, v4: u8, v6: u8) -> IpAddr {
     }
 }
 
-const C27_NAMES: [&str; 10] = ["www.rrl.test.", "WWW.RRL.test.", "mail.rrl.test.", "a.wild.rrl.test.", "B.wild.rrl.test.", "c.other.rrl.test.", "nx1.rrl.test.", "nx2.rrl.test.", "www.elsewhere.", "txt.rrl.test."];
+const C27_NAMES: [&str; 13] = ["www.rrl.test.", "WWW.RRL.test.", "mail.rrl.test.", "a.wild.rrl.test.", "B.wild.rrl.test.", "c.other.rrl.test.", "nx1.rrl.test.", "nx2.rrl.test.", "www.elsewhere.", "txt.rrl.test.", "a.big.rrl.test.", "b.big.rrl.test.", "C.Big.rrl.test."];
 
 fn gen_req(rng: &mut Rng, base: Option<&Req>, v4: u8, v6: u8) -> Req {
     let name = if let (Some(b), true) = (base, rng.chance(1, 3)) { b.name.clone() } else { RName::simple(C27_NAMES[rng.below(C27_NAMES.len())]) };
@@ -357,18 +363,26 @@ pub fn run_c27(ctx: &Ctx, rep: &mut Report) {
     let n = ctx.cases(40_000, 1_500_000);
     let (reference, cat) = rrl_zone();
     let cat = Arc::new(cat);
+    let baseline = make_server(cat.clone(), &ServerCfg { payload: 1232, rrl: None, keys: vec![] });
     for case in ctx.case_range(n) {
         rep.current_case = case;
         let mut rng = ctx.rng("c27", case);
         let v4 = *rng.pick(&[0u8, 1, 8, 24, 24, 31, 32, 16]);
         let v6 = *rng.pick(&[0u8, 1, 48, 56, 56, 63, 64]);
-        let slip = rng.below(2);
+        let a = gen_req(&mut rng, None, v4, v6);
+        let b = gen_req(&mut rng, Some(&a), v4, v6);
+        let big = RName::simple("big.rrl.test.");
+        // answers under the "big" wildcard are truncated for size anyway, which looks
+        // exactly like a slipped response: use slip 0 (drop) for those pairs
+        let slip = if a.name.is_at_or_below(&big) || b.name.is_at_or_below(&big) { 0 } else { rng.below(2) };
         let size = *rng.pick(&[1usize, 7, 1024, 65537]);
         let cfg = ServerCfg { payload: 1232, rrl: Some(RrlCfg { noerror: 1, nxdomain: 1, error: 1, window: 1, slip, v4_prefix: v4, v6_prefix: v6, size }), keys: vec![] };
         let server = make_server(cat.clone(), &cfg);
         let mut bufs = Buffers::new(1232);
-        let a = gen_req(&mut rng, None, v4, v6);
-        let b = gen_req(&mut rng, Some(&a), v4, v6);
+        // what the same requests get without rate limiting (a response that
+        // is truncated for size reasons must not be mistaken for a slipped one)
+        let base_a = send(&baseline, &mut bufs, &a, 1);
+        let base_b = send(&baseline, &mut bufs, &b, 2);
         let started = Instant::now();
         let ra = send(&server, &mut bufs, &a, 1);
         let rb = send(&server, &mut bufs, &b, 2);
@@ -395,8 +409,18 @@ pub fn run_c27(ctx: &Ctx, rep: &mut Report) {
                 continue;
             }
         };
-        let oa = classify_outcome(&ra);
-        let ob = classify_outcome(&rb);
+        let versus_baseline = |got: &Option<Vec<u8>>, base: &Result<Option<Vec<u8>>, String>| -> Result<Outcome, String> {
+            match (got, base) {
+                (None, _) => Ok(Outcome::Dropped),
+                (Some(g), Ok(Some(bl))) if g == bl => Ok(Outcome::Sent),
+                (Some(_), _) => match classify_outcome(got)? {
+                    Outcome::Slipped => Ok(Outcome::Slipped),
+                    _ => Err("response differs from the unlimited response but is not a slipped (TC, empty) one".to_string()),
+                },
+            }
+        };
+        let oa = versus_baseline(&ra, &base_a);
+        let ob = versus_baseline(&rb, &base_b);
         let (oa, ob) = match (oa, ob) {
             (Ok(x), Ok(y)) => (x, y),
             (Err(e), _) | (_, Err(e)) => {
@@ -450,7 +474,7 @@ pub fn run_c27(ctx: &Ctx, rep: &mut Report) {
 // =====================================================================
 
 pub fn run_c28(ctx: &Ctx, rep: &mut Report) {
-    let n = if ctx.is_miri() { ctx.cases(1, 32) } else { ctx.cases(500, 20_000) };
+    let n = if ctx.is_miri() { ctx.cases(1, 32) } else { ctx.cases(3_000, 100_000) };
     let (_reference, cat) = rrl_zone();
     let cat = Arc::new(cat);
     let name = RName::simple("www.rrl.test.");
@@ -465,7 +489,9 @@ pub fn run_c28(ctx: &Ctx, rep: &mut Report) {
             let total = match rng.below(4) {
                 0 => (cap as usize).saturating_sub(rng.below(3)).max(t),
                 1 => cap as usize + rng.below(8),
-                _ => (cap as usize * rng.range(2, 20)).min(30_000),
+                // mostly just past the capacity: the interesting moment is the crossing of the limit
+                2 => (cap as usize * rng.range(2, 20)).min(30_000),
+                _ => cap as usize + t * rng.range(1, 4),
             };
             (t, cap, total.max(t))
         };
